@@ -172,6 +172,21 @@ Proof.
   rewrite (Hf _ _ _ Hfs). destruct mode; [contradiction| |]; apply Hfb.
 Qed.
 
+(* raise_on_error=False never re-raises, at any log level (this is why the AST transformer passes it) *)
+Lemma safe_call_absorbs_false : forall {A} d (f : state -> res A) (on_error : option (state -> res A)) s,
+  (forall s1 s2 e, f s1 = Raise s2 e -> is_Exception e = true) ->
+  (forall g s1, on_error = Some g -> exists s2 a, g s1 = Ret s2 a) ->
+  exists s' r, safe_call d RFalse f on_error s = Ret s' r.
+Proof.
+  intros A d f on_error s Hf Hg. unfold safe_call.
+  assert (Hfb : forall s1, exists s' r,
+             match on_error with Some g => bind (g s1) (fun s' a => Ret s' (Some a)) | None => Ret s1 None end = Ret s' r).
+  { intros s1. destruct on_error as [g|]; [|eauto]. destruct (Hg g s1 eq_refl) as (s2 & a & X). rewrite X. cbn. eauto. }
+  destruct (errored s); [apply Hfb|].
+  destruct (f s) as [s1 a|s1 e] eqn:Hfs; [eauto|].
+  rewrite (Hf _ _ _ Hfs). apply Hfb.
+Qed.
+
 (* when the function raised, the importer is errored, DISABLED, and every joinpoint and hook list is back at
    its base value (C14's disable lemma) *)
 Lemma safe_call_withdraws : forall {A} b mode (f : state -> res A) on_error s s1 e,
@@ -228,6 +243,18 @@ Proof.
   intros F names s Hd HF Hn Hns. unfold hook_ast, ai_auto_import, visit. rewrite Hns. cbn [bind]. rewrite Hd.
   destruct (safe_call_absorbs RFalse (auto_import_body E F names) None s) as (s' & r & H).
   - discriminate.
+  - intros s1 s2 e X. eapply auto_import_body_raise; eauto.
+  - intros g s1 X. discriminate X.
+  - rewrite H. cbn. eauto.
+Qed.
+
+(* ... at every log level, DEBUG included *)
+Theorem hook_ast_absorbs_any_level : forall F names s,
+  exception_faults F -> exception_names names -> fault_at F SNamespaces = None ->
+  exists s', hook_ast E F names s = Ret s' tt.
+Proof.
+  intros F names s HF Hn Hns. unfold hook_ast, ai_auto_import, visit. rewrite Hns. cbn [bind].
+  destruct (safe_call_absorbs_false (e_debug E) (auto_import_body E F names) None s) as (s' & r & H).
   - intros s1 s2 e X. eapply auto_import_body_raise; eauto.
   - intros g s1 X. discriminate X.
   - rewrite H. cbn. eauto.
